@@ -131,6 +131,11 @@ def _changes(node) -> list[tuple[str, dict[str, Any], bool]]:
         out.append(("items-empty", {"items": ()}, True))
     if cls == "VMany":
         out.append(("items", {"items": (VLeaf(v=505),)}, True))
+    if cls in ("VMixed", "VInh"):
+        out.append(("first-equal-copy", {"first": node.first.duplicate()}, True))
+        out.append(("items-equal-copies", {"items": tuple(c.duplicate() for c in node.items)}, True))
+    if hasattr(node, "v") and cls != "VRich" and node.v == 1:
+        out.append(("v-equal-value-of-another-type", {"v": True}, True))
     out.append(("origin", {"origin": "<origin b>"}, False))
     out.append(("nothing", {}, False))
     return out
